@@ -20,12 +20,16 @@ CHECKS = {
    design="6 C03"),
  "C07": dict(
    text="Bounded exhaustive symbolic check of the real Binned class (table construction and all four look-up functions; scalar, Series and multi-point branches) against the upper-class-edge rule: symbolic L_max > 0 and load(s), wrapped law as uninterpreted functions, so the position of the load relative to every class edge (incl. exactly on an edge, zero, both signs, out of range) is a path; result term == oracle term, ValueError exactly outside the initialised range, never under-estimates, less than one class, monotone, Series == scalar, multi-point == per point.",
-   note="Bound: bin counts 1..4 (quick) / 1..8, 16, 100 (thorough; Series/monotone up to 8, multi-point up to 4 bins, ratios 1/2, 2, 3). Wrapped law is a contract stub (uninterpreted functions / identity law). Class edges are fl(k/n)*L_max as in the real table; floats otherwise modelled as reals.",
+   note="Bound: bin counts 1..4 (quick) / 1..8, 16, 100 (thorough; Series/monotone up to 8, multi-point up to 4 bins, ratios 1/2, 2, 3). Wrapped law is a contract stub (uninterpreted functions / identity law). Class edges are (k/n)*L_max (the real table holds fl(k/n)*L_max, <= 1 ulp away); floats modelled as reals.",
    design="6 C07"),
  "C14": dict(
    text="Bounded exhaustive symbolic check of the Python/pandas part of the accounting: LoadCollective derived quantities (upper-lower = 2 amplitude, mean, R with its IEEE cases, cycles), equivalence of range/mean and from/to descriptions, scale/shift with symbolic operand leaving cycles untouched; rebin_histogram / combine_histogram with symbolic non-negative counts over an enumerated family of gap-free binnings (regular, irregular, single class, identical, refining, coarsening, integer bin count): total conserved, identity, composition through a refining binning, grand total and per-class sums of a sum-combination.",
    note="Claimed in part: the np.histogram/np.histogram2d based clauses (C code on float64) and symbolic bin edges are outside. Bounds: 1..2 (quick) / 1..3 (thorough) collective rows; binnings with 1..2 / 1..3 classes on the grid {0,0.5,1,2,3,4}. Totals compared with 1e-12 relative tolerance because overlap fractions are float constants.",
    design="6 C14"),
+ "C12": dict(
+   text="Bounded exhaustive symbolic check of the real mean-stress transformation code (HaighDiagram.transform, _SegmentTransformer, fkm_goodman, five_segment_correction, collective and matrix accessors): amplitude > 0 and mean symbolic, so every sector of the Haigh plane and every border (R = 0, +-inf, 1, R12, R23) is a path. FKM-Goodman result == geometric iso-damage walk oracle; for FKM-Goodman and five-segment diagrams: T_R2 o T_R1 == T_R2, idempotence, cycle on the target ray unchanged, non-decreasing in amplitude; plain function == collective accessor (range/mean and from/to); matrix accessor conserves the symbolic cycle counts.",
+   note="Mean stress sensitivities and R_goal are concrete and enumerated (4-6 (M,M2) pairs, 2-3 five-segment sets, 10 targets incl. -inf and R > 1); restricted to cycles whose iso-damage amplitude stays positive. Value claims carry 1e-12 relative tolerance. Floats as reals; float constants stand for the simplest rational that rounds to them.",
+   design="6 C12"),
 }
 NA = {
  "C06": "subject is convergence/accuracy of scipy Newton/secant iterations on equations with real-exponent powers: no SMT theory for x**y, cos, log or for float iteration convergence; stubbing the power removes the subject",
